@@ -72,6 +72,13 @@ func (b *buffer) get(v wireType) {
 		return
 	}
 	b.i += v.width()
+	if b.i > len(b.data) {
+		// the width is recomputed from the value: an empty string decoded
+		// into a field that already held one (a repeated property) keeps
+		// the old value and would carry the offset past the data
+		b.i = len(b.data)
+		b.err = ErrMissingData
+	}
 }
 
 func (b *buffer) atEnd() bool {
